@@ -17,7 +17,7 @@ RULE = ("split_sync: all 65536 int16 words (exhaustive) in natural, shuffled, co
         "step amplitudes and analog thresholding. Non-trivial: a train with >= 3 events on >= 2 lines; distinct = distinct "
         "(layout | file kind, line subset, slice, dtype) signature")
 ASSUMPTIONS = ["one digital sync word per sample (as in every fixture); 0/1 trains are given as signed or floating arrays"]
-REQUIRED = {"words_checked": 65536, "read_sync_checked": 10, "fronts_checked": 100, "fronts_2d_checked": 100, "strided_sync_checked": 20, "nidq_partial_checked": 8, "analog_lines_checked": 4, "sync_routes_checked": 30, "lf_band_sync_files": 3, "headers_rewritten_in_place": 2, "sync_files_with_stale_header": 5}
+REQUIRED = {"words_checked": 65536, "read_sync_checked": 10, "fronts_checked": 100, "fronts_2d_checked": 100, "analog_on_threshold": 20, "strided_sync_checked": 20, "nidq_partial_checked": 8, "analog_lines_checked": 4, "sync_routes_checked": 30, "lf_band_sync_files": 3, "headers_rewritten_in_place": 2, "sync_files_with_stale_header": 5}
 CASE_TIMEOUT = 120.0
 EXHAUSTIVE = "split_sync over all 65536 words x 16 bits"
 
@@ -388,6 +388,31 @@ def run_case(case):
             res.exception("read_sync:exception", e, f"nidq ns={ns} xa={xa}")
         res.sig = f"nidq-{mn}-{ma}-{xa}-{nl}"
     elif cls == "fronts":
+        # analog thresholding on quantised traces that ramp through, touch or rest on the threshold: a sample equal to the threshold is
+        # not above it (rises) and not below it (falls); judged against a plain loop (round 19)
+        for _ in range(max(4, case["n"] // 4)):
+            ns = int(rng.integers(20, 300))
+            q = float(rng.choice([1.0, 0.25, 0.5]))
+            thr = float(rng.integers(-3, 6)) * q
+            lv = thr + q * rng.integers(-3, 4, int(rng.integers(3, 25)))        # levels on the quantisation grid, the threshold among them
+            xq = np.repeat(lv, rng.integers(1, 6, lv.size))[:ns].astype(np.float64)
+            if rng.random() < 0.5:          # ramps: one grid step per sample
+                xq = thr + q * np.clip(np.cumsum(rng.integers(-1, 2, ns)), -4, 4)
+            bh, bl = xq > thr, xq < thr
+            want_r = np.flatnonzero(bh[1:] & ~bh[:-1]) + 1
+            want_f = np.flatnonzero(bl[1:] & ~bl[:-1]) + 1
+            try:
+                r, f = U.rises(xq, step=thr, analog=True), U.falls(xq, step=thr, analog=True)
+                res.check(np.array_equal(r, want_r), "rises:analog:on-threshold", f"trace on a {q} grid with samples equal to the threshold {thr}: rises {np.asarray(r)[:8].tolist()} expected {want_r[:8].tolist()}",
+                          counter="analog_on_threshold")
+                res.check(np.array_equal(f, want_f), "falls:analog:on-threshold", f"trace on a {q} grid with samples equal to the threshold {thr}: falls {np.asarray(f)[:8].tolist()} expected {want_f[:8].tolist()}")
+                X2 = np.c_[xq, xq[::-1]]
+                r2 = U.rises(X2, axis=0, step=thr, analog=True)
+                bh2 = X2 > thr
+                w2 = np.where(bh2[1:] & ~bh2[:-1])
+                res.check(sorted(zip(r2[0].tolist(), r2[1].tolist())) == sorted(zip((w2[0] + 1).tolist(), w2[1].tolist())), "rises:analog:on-threshold", "2-D analog rises with samples on the threshold differ")
+            except Exception as e:
+                res.exception("fronts:exception", e, "analog on-threshold")
         for _ in range(case["n"]):
             ns = int(rng.integers(2, 500))
             x, pos, pol = train(rng, ns, int(rng.integers(0, 30)), min_gap=int(rng.integers(1, 4)))
